@@ -7,6 +7,7 @@ pub mod conn;
 pub mod stream;
 pub mod net;
 pub mod synclane;
+pub mod mt;
 use crate::rng::Rng;
 
 pub fn group_salt(group: &str) -> u64 { group.bytes().fold(0xcbf29ce484222325u64, |h, b| (h ^ b as u64).wrapping_mul(0x100000001b3)) }
@@ -33,6 +34,7 @@ pub fn gen(group: &str, rng: &mut Rng, n: usize, out: &mut Vec<String>) {
         "setup" => net::gen_setup(rng, n, out),
         "tls" => net::gen_tls(rng, n, out),
         "sync" => synclane::gen(rng, n, out),
+        "mt" => mt::gen(rng, n, out),
         _ => panic!("unknown group {}", group),
     }
 }
@@ -48,6 +50,7 @@ pub fn run(lane: &str, args: &[&str]) -> (String, Option<String>) {
         "setup" | "setupx" => net::run_setup(lane, args),
         "tls" => net::run_tls(args),
         "sync" => synclane::run(args),
+        "mt" => mt::run(args),
         "ctl" | "exop" | "cresp" => ctl::run(lane, args),
         "filter" | "esc" | "utf8" | "entry" | "result" | "helpers" | "url" => textl::run(lane, args),
         _ => ("UNKNOWN-LANE".into(), None),
